@@ -942,6 +942,14 @@ static void r_op(vh_rng *r)
 		desc("stall%d(%d);", s->id, s->stall); hmix(700 + s->id, s->stall);
 		vh_stat("peer_stalls");
 		break;
+	case 9: /* re-apply the group's (identical) configuration: levels, debts included, must be unaffected */
+		if (!r_grp || !r_gcfg) break;
+		ref_update(&r_gref);
+		bufferevent_rate_limit_group_set_cfg(r_grp, r_gcfg);
+		desc("gcfg;"); hmix(900, 1);
+		vh_stat("group_cfg_reapplied");
+		if (bufferevent_rate_limit_group_get_read_limit(r_grp) < 0 || bufferevent_rate_limit_group_get_write_limit(r_grp) < 0) vh_stat("group_cfg_reapplied_in_debt");
+		break;
 	case 8: /* drop / renew the own bucket (new epoch) */
 		if (s->has_cfg && !s->in_group) break;
 		if (s->has_cfg) r_clear_own(s);
@@ -1416,7 +1424,7 @@ static struct lsub *l_pick(vh_rng *r)
 static void l_op(vh_rng *r)
 {
 	struct lsub *s = nLS ? l_pick(r) : NULL;
-	int op = (int)vh_below(r, 14);
+	int op = (int)vh_below(r, 15);
 	ssize_t k;
 	if (!s || op == 0) { if (nLS < LMAX - 1) l_create(r); return; }
 	hmix(700 + op, (uint64_t)s->id);
@@ -1464,6 +1472,12 @@ static void l_op(vh_rng *r)
 		if (s->connecting || s->eof[0] || s->kind < LK_SOCK) break;
 		bufferevent_trigger(s->bev, (short)VH_PICK(r, ((int[]){ EV_READ, EV_WRITE, EV_READ | EV_WRITE })), vh_chance(r, 1, 2) ? BEV_TRIG_DEFER_CALLBACKS : 0);
 		desc("trig%d;", s->id); vh_stat("user_triggers");
+		break;
+	case 14: /* a read watermark comes and goes (suspend / unsuspend cycle): must not revive a direction that already ended */
+		if (s->connecting) break;
+		bufferevent_setwatermark(s->bev, EV_READ, 0, 1);
+		bufferevent_setwatermark(s->bev, EV_READ, 0, 0);
+		desc("wmcycle%d;", s->id); vh_stat(s->term[0] ? "wm_cycles_after_read_end" : "wm_cycles");
 		break;
 	default: /* the slow nameserver finally answers */
 		if (!l_dns || l_dnsmode != 2) break;
